@@ -843,4 +843,39 @@ theorem C12_chars_frame_nesting_depth (o : Opts) (cs : List Chunk) (preB postB :
     (blockFollow_term (blocks_rest_head postB)) hF1
   simpa using this
 
+
+/-- **C12_chars_dup_framecode** — a save frame header whose normalised code an earlier frame of the block has (any spelling), with
+    items `body` and its terminator.  One report, CIF_DUP_FRAMECODE; the existing frame (`fc0`, wherever it stands among the frames
+    `fa ++ _ :: fb` the elements in front denote) receives the items, everything else is as the document says.
+    (Content stated as the token-level theorem states it: the frames and loops of the block.) -/
+theorem C12_chars_dup_framecode (o : Opts) (cs : List Chunk) (preB postB : List Block) (bc : Str) (pre post : List Elem)
+    (fc fc0 : Str) (body : List Item) (seen2 fseen2 bseen : List Str) (fa fb ffs : List Container) (fls : List Loop)
+    (H : ElemHost o cs preB postB bc pre post ((.frameHead, fc) :: (itemsToks body ++ [(.frameTerm, [])])))
+    (hcode : wfCode fc = true) (hk : o.norm fc0 = o.norm fc)
+    (hsplit : (denoteElems o.dia o.normKey pre [] []).1 = fa ++ .mk fc0 ffs fls :: fb)
+    (ha : ∀ c ∈ fa, codeIs o.norm (o.norm fc) c = false) (hb : ∀ c ∈ fb, codeIs o.norm (o.norm fc) c = false)
+    (hwb : wfItems o body bseen = true) (hbseen : ∀ k ∈ normNames o fls, k ∈ bseen) (hpk : allPacked fls)
+    (hpost : wfElems o post seen2 fseen2 = true)
+    (hseen2 : ∀ k ∈ normNames o (denoteElems o.dia o.normKey pre [] []).2, k ∈ seen2)
+    (hfseen2 : ∀ c ∈ (denoteElems o.dia o.normKey pre [] []).1, o.norm c.code ∈ fseen2) :
+    ∃ r, parse o acceptAll [] (renderChunks cs)
+        = { rc := 0, log := [r],
+            cif := denote o.dia o.normKey preB ++
+              .mk bc (denoteElems o.dia o.normKey post (fa ++ .mk fc0 ffs (denoteItems o.dia o.normKey body fls) :: fb)
+                        (denoteElems o.dia o.normKey pre [] []).2).1
+                     (denoteElems o.dia o.normKey post (fa ++ .mk fc0 ffs (denoteItems o.dia o.normKey body fls) :: fb)
+                        (denoteElems o.dia o.normKey pre [] []).2).2 :: denote o.dia o.normKey postB }
+      ∧ r.code = CIF_DUP_FRAMECODE := by
+  have h4 := Lemmas.WriterChunks.szItems_toks body
+  obtain ⟨r, h, hr⟩ := elems_class H _ _ CIF_DUP_FRAMECODE (szItems body + body.length + 3)
+    (by simp only [List.length_cons, List.length_append, List.length_nil]; omega)
+    (fun s1 w1 f hw1 hf hF1 =>
+      C12_dup_framecode o _ bc H.fresh' H.mfd pre post fc fc0 body [] [] seen2 fseen2 bseen _ s1 f w1 [] fa fb ffs [] fls hw1 H.wfRun
+        (nil_seen o) (by intro c hc; cases hc) hcode hk hsplit ha hb hwb hbseen hpk hpost hseen2 hfseen2 (by omega)
+        (blockFollow_term (blocks_rest_head postB)) hF1)
+  refine ⟨r, ?_, hr⟩
+  rw [h, pruneC_packed]
+  exact allPacked_denoteElems o post seen2 fseen2 _ _ hpost
+    (allPacked_denoteElems o pre [] [] [] [] H.wfRun (by intro l hl; cases hl))
+
 end CifModel.Props
